@@ -86,7 +86,7 @@ def birth_rules(ctx, prog):
     # open(): O_CLOEXEC
     for Fn, node in callsites(prog, "open"):
         from ..models import or_contains_const
-        ctx.ob("C11.X1o", site_of(Fn, node), "files are opened with O_CLOEXEC", or_contains_const(node["c"][2], 0o2000000), {"flags": expr_str(node["c"][2])})
+        ctx.ob("C11.X1o", site_of(Fn, node), "files are opened with O_CLOEXEC", or_contains_const(node["c"][2], 0o2000000, Fn), {"flags": expr_str(node["c"][2])})
     ctx.floor("C11.X1o", 1)
 
 
@@ -361,7 +361,12 @@ def closeall_rules(ctx, prog):
             g = strip(F.nodes[guards[0]["cond"]])
             gtxt = expr_str(g)
             # r >= 0 where r = fcntl(i, F_GETFD)
-            if g["k"] == "BinaryOperator" and g["op"] == ">=" and const_of(prog, g["c"][1]) == 0:
+            is_probe = lambda c0: c0.get("callee") == "fcntl" and expr_str(strip(c0["c"][1])) == var and const_of(prog, c0["c"][2]) == 1
+            nonneg_test = g["k"] == "BinaryOperator" and ((g["op"] == ">=" and const_of(prog, g["c"][1]) == 0) or
+                                                          (g["op"] in ("!=", ">") and const_of(prog, g["c"][1]) == -1))
+            if nonneg_test and is_probe(strip(g["c"][0])):
+                guard_ok = True         # if (fcntl(i, F_GETFD) >= 0) close(i)
+            elif nonneg_test:
                 rv = expr_str(strip(g["c"][0]))
                 for y in walk_nodes(body):
                     if y["k"] == "BinaryOperator" and y["op"] == "=" and expr_str(strip(y["c"][0])) == rv:
